@@ -61,7 +61,9 @@ func (st *vStream) check(b []byte) bool {
 
 type vSessData struct {
 	upTx, upRx, downTx, downRx *vStream
-	gone                       bool // the client has fallen silent: its events are not recorded any more
+	gone                       bool          // the client has fallen silent: its events are not recorded any more
+	closed                     bool          // the client has closed: what its callback is still handed is not recorded
+	stall                      chan struct{} // non-nil: the client's OnMessage parks here (a reader that does not keep up)
 }
 
 type vData struct {
@@ -225,6 +227,86 @@ func TestVerifRelayReplay(t *testing.T) {
 				}
 			}
 			r.log(vEvent{"ev": "harness.note", "what": fmt.Sprintf("stuck=%v", stuck)})
+		case "ClientStallsReading":
+			sd := data.get(s)
+			data.mu.Lock()
+			if sd.stall == nil {
+				sd.stall = make(chan struct{})
+			}
+			r.log(vEvent{"ev": "client.stall", "s": s})
+			data.mu.Unlock()
+		case "ClientResumes":
+			sd := data.get(s)
+			data.mu.Lock()
+			r.log(vEvent{"ev": "client.resume", "s": s})
+			if sd.stall != nil {
+				close(sd.stall)
+				sd.stall = nil
+			}
+			data.mu.Unlock()
+		case "RelaySendBulk":
+			// the relay pushes more than any buffer on the way holds, in the background (its writes may
+			// block); every message is announced before it is written
+			r.mu.Lock()
+			rc := r.relays[s]
+			r.mu.Unlock()
+			if rc == nil {
+				err = sc.diverged(st, "session is not established")
+				break
+			}
+			r.mu.Lock()
+			for rc.ws == nil && !rc.failed {
+				r.cond.Wait()
+			}
+			r.mu.Unlock()
+			sd := data.get(s)
+			total := argInt(st, 1)
+			go func() {
+				for total > 0 {
+					n := 65536
+					if total < n {
+						n = total
+					}
+					total -= n
+					b := sd.downTx.next(n)
+					r.mu.Lock()
+					dead := rc.relayClosed || rc.byProxy
+					if !dead {
+						r.logLocked(vEvent{"ev": "relay.send", "s": s, "n": n})
+					}
+					r.mu.Unlock()
+					if dead {
+						return
+					}
+					if e := rc.ws.WriteMessage(websocket.BinaryMessage, b); e != nil {
+						r.log(vEvent{"ev": "harness.note", "what": fmt.Sprintf("bulk send stopped: %v", e)})
+						return
+					}
+				}
+				r.log(vEvent{"ev": "harness.note", "what": "bulk sent"})
+			}()
+		case "AwaitBulkQuiet":
+			// scheduling only: go on when nothing of the session has moved for half a second (everything is
+			// through, or it has piled up as far as it goes)
+			last, quiet := -1, 0
+			deadline := time.Now().Add(sc.wait)
+			for quiet < 5 && time.Now().Before(deadline) {
+				time.Sleep(100 * time.Millisecond)
+				r.mu.Lock()
+				now := 0
+				for _, e := range r.events {
+					if es, _ := e["s"].(int); es == s && (e["ev"] == "relay.send" || e["ev"] == "conn.write" || e["ev"] == "client.recv") {
+						now++
+					}
+				}
+				r.mu.Unlock()
+				if now == last {
+					quiet++
+				} else {
+					quiet = 0
+				}
+				last = now
+			}
 		case "ClientRecvSettle":
 			// nothing to do: only what has to be observed before going on
 		case "ClientSend", "RelaySend", "ClientCloseDc", "ClientAbort", "ClientVanish", "RelayCloseWs":
@@ -256,12 +338,23 @@ func TestVerifRelayReplay(t *testing.T) {
 				if e := rc.ws.WriteMessage(websocket.BinaryMessage, b); e != nil {
 					r.log(vEvent{"ev": "harness.note", "what": fmt.Sprintf("relay send of %d bytes failed: %v", n, e)})
 				}
-			case "ClientCloseDc":
-				// graceful: the data channel is closed, what was sent before arrives before the end
-				r.dataEnd(s, "clientdc", "client.close")
-			case "ClientAbort":
-				// the whole peer connection is torn down at once: what is in flight may be lost
-				r.dataEnd(s, "client", "client.abort")
+			case "ClientCloseDc", "ClientAbort":
+				data.mu.Lock()
+				sd.closed = true
+				data.mu.Unlock()
+				if st.Act == "ClientCloseDc" {
+					// graceful: the data channel is closed, what was sent before arrives before the end
+					r.dataEnd(s, "clientdc", "client.close")
+				} else {
+					// the whole peer connection is torn down at once: what is in flight may be lost
+					r.dataEnd(s, "client", "client.abort")
+				}
+				data.mu.Lock()
+				if sd.stall != nil {
+					close(sd.stall) // the parked callback returns; what it is still handed is dropped
+					sd.stall = nil
+				}
+				data.mu.Unlock()
 			case "ClientVanish":
 				// the client falls silent: it never sends, reads or closes again.  (Its transport goes
 				// on answering keep-alives; what the proxy's code sees is the same: no signal.)
@@ -285,13 +378,27 @@ func TestVerifRelayReplay(t *testing.T) {
 					sd := data.get(k)
 					cl.dc.OnMessage(func(m webrtc.DataChannelMessage) {
 						data.mu.Lock()
-						gone := sd.gone
+						st := sd.stall
 						data.mu.Unlock()
-						if gone {
+						if st != nil {
+							<-st // the reader does not keep up: everything behind this message waits in the transport
+						}
+						// decided and recorded under data.mu, like client.stall: a receipt is either logged before
+						// the stall or waits for its end
+						data.mu.Lock()
+						for sd.stall != nil && !(sd.gone || sd.closed) {
+							st2 := sd.stall
+							data.mu.Unlock()
+							<-st2
+							data.mu.Lock()
+						}
+						if sd.gone || sd.closed {
+							data.mu.Unlock()
 							return
 						}
 						ok := sd.downRx.check(m.Data)
 						r.log(vEvent{"ev": "client.recv", "s": k, "n": len(m.Data), "total": int(sd.downRx.pos), "ok": ok})
+						data.mu.Unlock()
 					})
 					cl.dc.OnClose(func() {
 						data.mu.Lock()
